@@ -172,32 +172,32 @@ theorem finishName_progress (l : Lx) (st : NameSt) (p0 : Nat)
     (hpos : p0 < st.pos) (hq : ∀ q ∈ st.positions, p0 ≤ q) (t : Token) (l' : Lx)
     (h : finishName l st = .ok (t, l')) : p0 < l'.pos := by
   unfold finishName at h
+  simp only at h
   split at h
   · split at h
     · cases h
-    · rename_i p hp
-      cases h
-      have := hq p (List.mem_of_getElem? hp)
-      dsimp only; omega
-  · simp only at h
-    split at h
     · split at h
       · cases h
+      · rename_i p hp
+        cases h
+        have := hq p (List.mem_of_getElem? hp)
+        dsimp only; omega
+  · split at h
+    · cases h
+    · cases h
+    · cases h
+    · rename_i sub p hh
+      cases h
+      obtain ⟨q, hqm, hpq⟩ := prefixLoop_ok_some _ _ _ _ _ _ hh
+      have := hq q hqm
+      dsimp only; omega
+    · split at h
       · split at h
         · cases h
         · rename_i p hp
           cases h
           have := hq p (List.mem_of_getElem? hp)
           dsimp only; omega
-    · split at h
-      · cases h
-      · cases h
-      · cases h
-      · rename_i sub p hh
-        cases h
-        obtain ⟨q, hqm, hpq⟩ := prefixLoop_ok_some _ _ _ _ _ _ hh
-        have := hq q hqm
-        dsimp only; omega
       · repeat' split at h
         all_goals (cases h; dsimp only; omega)
 
@@ -211,6 +211,17 @@ theorem consumeName_progress (l : Lx) (t : Token) (l' : Lx) (h : consumeName l =
   · rename_i st hst
     have := collectParts_inv hst
     exact finishName_progress l st l.pos this.1 this.2 t l' h
+
+theorem nameArm_progress (l : Lx) (t : Token) (l' : Lx) (h : nameArm l = .ok (t, l')) :
+    l.pos < l'.pos := by
+  unfold nameArm at h
+  split at h
+  · rename_i t0 l0 hh
+    cases h
+    exact consumeName_progress l _ l0 hh
+  · cases h
+  · cases h
+  · cases h
 
 /-! ## Numbers -/
 
@@ -290,7 +301,7 @@ theorem readNextToken_progress (l : Lx) (t : Token) (l' : Lx) :
   -- the name
   refine ite_ok ?_ ?_
   · intro _ h
-    have := consumeName_progress _ t l' h
+    have := nameArm_progress _ t l' h
     dsimp only at this
     exact ⟨by omega, fun _ _ => by omega⟩
   -- end of input / undefined
